@@ -50,3 +50,28 @@ theorem check_inj_voucher (p : CheckParams) (inv : UInt64) (h : p.Invertible inv
   grind
 
 end Woodpile.Raffle
+
+namespace Woodpile.Raffle
+
+/-! Closed facts about the parameter strings extracted from /repo. -/
+
+theorem nfsVouch_matched : nfsVouch.Matched := ⟨by decide +kernel, by decide +kernel⟩
+theorem abtVouch_matched : abtVouch.Matched := ⟨by decide +kernel, by decide +kernel⟩
+theorem nfsVouch_checking : nfsVouch.checking = baseTimeCheck := by decide +kernel
+theorem abtVouch_checking : abtVouch.checking = baseTimeCheck := by decide +kernel
+theorem baseTimeCheck_invertible :
+    baseTimeCheck.Invertible (0 - (nfsVouch.scale ^^^ vouchingTag)) := ⟨by decide +kernel⟩
+
+theorem check_nfs (x : UInt64) : check baseTimeCheck x (vouchRaw nfsVouch x) = true := by
+  rw [← nfsVouch_checking]; exact check_vouchRaw _ nfsVouch_matched x
+
+theorem check_abt (x : UInt64) : check baseTimeCheck x (vouchRaw abtVouch x) = true := by
+  rw [← abtVouch_checking]; exact check_vouchRaw _ abtVouch_matched x
+
+theorem vouch?_nfs (x : UInt64) : vouch? nfsVouch x = some (vouchRaw nfsVouch x) :=
+  vouch?_eq _ nfsVouch_matched x
+
+theorem vouch?_abt (x : UInt64) : vouch? abtVouch x = some (vouchRaw abtVouch x) :=
+  vouch?_eq _ abtVouch_matched x
+
+end Woodpile.Raffle
